@@ -444,6 +444,9 @@ func nativeReplay(spec *HarnessSpec, dir string, values []uint64, choices []int6
 	if len(target) > 0 && !strings.HasPrefix(target[0], "implicit:") {
 		tgt = target[0]
 	}
+	if len(target) > 0 && strings.HasPrefix(target[0], "implicit: deadlock") {
+		tgt = "deadlock"
+	}
 	rp := map[string]interface{}{"target": tgt, "values": values, "choices": choices, "params": params, "harness": spec.Name, "pkg": spec.Pkg, "files": spec.Files, "repeat": spec.ReplayRepeat, "race": spec.NativeRace, "quiesce_ms": spec.NativeQuiesceMs}
 	os.WriteFile(filepath.Join(dir, "replay.json"), mustJSON(rp), 0644)
 	return runReplayDir(dir)
@@ -510,7 +513,7 @@ func TestVrtReplay(t *testing.T) {
 	if rp.QuiesceMs > 0 {
 		cmd.Env = append(cmd.Env, fmt.Sprintf("VRT_QUIESCE_MS=%d", rp.QuiesceMs))
 	}
-	if rp.Target != "" && rp.Repeat > 1 {
+	if rp.Target != "" && (rp.Repeat > 1 || rp.Target == "deadlock") {
 		cmd.Env = append(cmd.Env, "VRT_TARGET="+rp.Target)
 	}
 	out, _ := cmd.CombinedOutput()
@@ -530,6 +533,9 @@ func TestVrtReplay(t *testing.T) {
 			res.Observes = append(res.Observes, strings.TrimPrefix(line, "VRT-OBSERVE "))
 		case line == "VRT-ASSUME-FAILED":
 			res.AssumeFailed = true
+			res.Ran = true
+		case strings.HasPrefix(line, "VRT-HANG "):
+			res.Failed = append(res.Failed, "hang: "+strings.TrimPrefix(line, "VRT-HANG "))
 			res.Ran = true
 		case line == "VRT-DONE":
 			res.Ran = true
